@@ -703,80 +703,7 @@ theorem dropLeadingComments_spec : ∀ ls : List Line, (∀ l ∈ ls, '\n' ∉ l
         · exact ⟨Or.inr (hmem x hx).1, (hmem x hx).2⟩
     · exact ⟨[], by simp⟩
 
-/-! ### `suppress_sys_path_injection` -/
-
 theorem isInjection_nil : isInjection [] = false := by decide
-
-theorem dropInjections_ne_nil : ∀ ls : List Line, ls ≠ [] → dropInjections ls ≠ []
-  | [], h => absurd rfl h
-  | [l], _ => by
-    rw [dropInjections]; split <;> simp
-  | l :: m :: rest, _ => by
-    rw [dropInjections]
-    split
-    · exact dropInjections_ne_nil (m :: rest) (by simp)
-    · simp
-
-theorem dropInjections_spec : ∀ ls : List Line,
-    (∀ l ∈ dropInjections ls, isInjection l = false) ∧
-    (dropInjections ls).filter (fun l => !l.isEmpty) =
-      (ls.filter fun l => !isInjection l).filter (fun l => !l.isEmpty)
-  | [] => by simp [dropInjections]
-  | [l] => by
-    rw [dropInjections]
-    by_cases h : isInjection l = true
-    · simp [h, isInjection_nil]
-    · simp [h]
-  | l :: m :: rest => by
-    obtain ⟨ih1, ih2⟩ := dropInjections_spec (m :: rest)
-    rw [dropInjections]
-    by_cases h : isInjection l = true
-    · rw [if_pos h]
-      refine ⟨ih1, ?_⟩
-      rw [ih2]
-      simp [List.filter_cons, h]
-    · rw [if_neg h]
-      constructor
-      · intro x hx
-        simp only [List.mem_cons] at hx
-        rcases hx with hx | hx
-        · subst hx; simpa using h
-        · exact ih1 x (by simpa using hx)
-      · have hl : (!isInjection l) = true := by simpa using h
-        rw [List.filter_cons (x := l) (xs := m :: rest), if_pos hl]
-        by_cases he : l.isEmpty = true
-        · rw [List.filter_cons, List.filter_cons (x := l), he]
-          simp only [Bool.not_true, Bool.false_eq_true, if_false]
-          exact ih2
-        · have he' : (!l.isEmpty) = true := by simpa using he
-          rw [List.filter_cons, List.filter_cons (x := l), if_pos he', if_pos he', ih2]
-
-theorem dropInjections_no_nl (ls : List Line) (h : ∀ l ∈ ls, '\n' ∉ l) :
-    ∀ l ∈ dropInjections ls, '\n' ∉ l := by
-  match ls with
-  | [] => simp [dropInjections]
-  | [l] =>
-    rw [dropInjections]; split
-    · simp
-    · simpa using h
-  | l :: m :: rest =>
-    have ih := dropInjections_no_nl (m :: rest) (fun x hx => h x (List.mem_cons_of_mem _ hx))
-    rw [dropInjections]; split
-    · exact ih
-    · intro x hx
-      simp only [List.mem_cons] at hx
-      rcases hx with hx | hx
-      · subst hx; exact h _ (by simp)
-      · exact ih x (by simpa using hx)
-
-theorem injections_spec (t : Text) :
-    (∀ l ∈ splitNl (suppressSysPath t), isInjection l = false) ∧
-    (splitNl (suppressSysPath t)).filter (fun l => !l.isEmpty) =
-      ((splitNl t).filter fun l => !isInjection l).filter (fun l => !l.isEmpty) := by
-  unfold suppressSysPath
-  rw [splitNl_joinNl _ (dropInjections_ne_nil _ (splitNl_ne_nil t))
-    (dropInjections_no_nl _ (splitNl_no_nl t))]
-  exact dropInjections_spec _
 
 /-! ### `suppress_main_guard` -/
 
@@ -832,6 +759,95 @@ theorem dropGuards_reverse (ifs : List IfStmt) : ∀ (pos : Nat) (ls pre : List 
           simp only [List.append_assoc]
         rw [this, List.take_left' hA]
       rw [ht, List.drop_left' hlen', List.append_assoc]
+
+/-! ### `suppress_sys_path_injection` (statement level, repair F50) -/
+
+theorem dropInjectionStmts_append (ls : List Line) (xs ys : List Stmt) :
+    dropInjectionStmts ls (xs ++ ys) = dropInjectionStmts (dropInjectionStmts ls xs) ys := by
+  induction xs generalizing ls with
+  | nil => rfl
+  | cons x xs ih =>
+    simp only [List.cons_append, dropInjectionStmts]
+    exact ih _
+
+/-- The algebra of one deletion, shared with `dropGuards_reverse`: what is left of
+`pre ++ ls.take (b - pos) ++ K` once the lines `a … b` are deleted (or not). -/
+theorem delRange_step (pre ls K : List Line) (a b pos : Nat) (g : Bool) (hpre : pre.length = pos)
+    (h1 : pos < a) (h2 : a ≤ b) (h3 : b ≤ pos + ls.length) :
+    (if g = true then delRange (pre ++ ls.take (b - pos) ++ K) a b else pre ++ ls.take (b - pos) ++ K) =
+      pre ++ (ls.take (a - 1 - pos) ++ (if g = true then [] else (ls.drop (a - 1 - pos)).take (b - (a - 1))) ++ K) := by
+  have hlen' : (pre ++ ls.take (b - pos)).length = b := by
+    simp only [List.length_append, List.length_take, hpre]; omega
+  have hsplit : ls.take (b - pos) =
+      ls.take (a - 1 - pos) ++ (ls.drop (a - 1 - pos)).take (b - (a - 1)) := by
+    have : b - pos = (a - 1 - pos) + (b - (a - 1)) := by omega
+    rw [this, List.take_add]
+  cases g with
+  | false =>
+    simp only [Bool.false_eq_true, if_false]
+    rw [hsplit]; simp only [List.append_assoc]
+  | true =>
+    simp only [if_true, List.append_nil]
+    unfold delRange
+    have hA : (pre ++ ls.take (a - 1 - pos)).length = a - 1 := by
+      simp only [List.length_append, List.length_take, hpre]; omega
+    have ht : (pre ++ ls.take (b - pos) ++ K).take (a - 1) = pre ++ ls.take (a - 1 - pos) := by
+      rw [hsplit]
+      have : pre ++ (ls.take (a - 1 - pos) ++ (ls.drop (a - 1 - pos)).take (b - (a - 1))) ++ K =
+          (pre ++ ls.take (a - 1 - pos)) ++ ((ls.drop (a - 1 - pos)).take (b - (a - 1)) ++ K) := by
+        simp only [List.append_assoc]
+      rw [this, List.take_left' hA]
+    rw [ht, List.drop_left' hlen', List.append_assoc]
+
+/-- Deleting the injection statements from the last to the first — the first line being tested on the
+list as it is at that moment — = walking through the source and keeping what is outside the
+statements whose first line IN THE SOURCE is an injection. -/
+theorem dropInjectionStmts_reverse (ss : List Stmt) : ∀ (pos : Nat) (ls pre : List Line),
+    pre.length = pos → RangesOk pos ls.length (injectionMarks (pre ++ ls) ss) →
+    dropInjectionStmts (pre ++ ls) ss.reverse =
+      pre ++ keepOutsideGuards pos ls (injectionMarks (pre ++ ls) ss) := by
+  induction ss with
+  | nil => intro pos ls pre _ _; simp [dropInjectionStmts, keepOutsideGuards, injectionMarks]
+  | cons s rest ih =>
+    obtain ⟨a, b, c0⟩ := s
+    intro pos ls pre hpre hok
+    cases c0 with
+    | false =>
+      have hm : injectionMarks (pre ++ ls) (⟨a, b, false⟩ :: rest) = injectionMarks (pre ++ ls) rest := by
+        simp [injectionMarks]
+      rw [hm] at hok ⊢
+      rw [List.reverse_cons, dropInjectionStmts_append, ih pos ls pre hpre hok]
+      simp [dropInjectionStmts, stmtIsInjection]
+    | true =>
+      have hm : injectionMarks (pre ++ ls) (⟨a, b, true⟩ :: rest) =
+          ⟨a, b, isInjection ((pre ++ ls).getD (a - 1) [])⟩ :: injectionMarks (pre ++ ls) rest := by
+        simp [injectionMarks]
+      rw [hm] at hok ⊢
+      obtain ⟨h1, h2, h3, hrest⟩ := hok
+      simp only at h1 h2 h3 hrest
+      have hlen' : (pre ++ ls.take (b - pos)).length = b := by
+        simp only [List.length_append, List.length_take, hpre]; omega
+      have hfull : pre ++ ls.take (b - pos) ++ ls.drop (b - pos) = pre ++ ls := by
+        rw [List.append_assoc, List.take_append_drop]
+      have hrest' : RangesOk b (ls.drop (b - pos)).length
+          (injectionMarks (pre ++ ls.take (b - pos) ++ ls.drop (b - pos)) rest) := by
+        rw [hfull]; simpa only [List.length_drop] using hrest
+      have ihh := ih b (ls.drop (b - pos)) (pre ++ ls.take (b - pos)) hlen' hrest'
+      rw [hfull] at ihh
+      obtain ⟨K, hK⟩ : ∃ K, K = keepOutsideGuards b (ls.drop (b - pos)) (injectionMarks (pre ++ ls) rest) :=
+        ⟨_, rfl⟩
+      rw [← hK] at ihh
+      rw [List.reverse_cons, dropInjectionStmts_append, ihh]
+      have hget : (pre ++ ls.take (b - pos) ++ K).getD (a - 1) [] = (pre ++ ls).getD (a - 1) [] := by
+        simp only [List.getD_eq_getElem?_getD]
+        have e1 : (pre ++ ls.take (b - pos) ++ K)[a - 1]? = (pre ++ ls.take (b - pos))[a - 1]? :=
+          List.getElem?_append_left (by rw [hlen']; omega)
+        have e2 : (pre ++ ls.take (b - pos) ++ ls.drop (b - pos))[a - 1]? = (pre ++ ls.take (b - pos))[a - 1]? :=
+          List.getElem?_append_left (by rw [hlen']; omega)
+        rw [← hfull, e1, e2]
+      simp only [dropInjectionStmts, stmtIsInjection, Bool.true_and, hget, keepOutsideGuards]
+      rw [← hK]
+      exact delRange_step pre ls K a b pos _ hpre h1 h2 h3
 
 /-! ### the end of `full_cleaning`: no blank line -/
 
